@@ -476,8 +476,11 @@ class _Gen:
                 lo = draw(st.one_of(st.just(0.0), logf(1e-6, 10.0)))
                 hi = lo + draw(logf(1e-6, 1e3))
                 if k == "tp":
-                    lo = draw(st.floats(-60.0, 20.0))
-                    hi = draw(st.floats(30.0, 200.0))
+                    # signed comparison: bounds of either sign, and exactly 0 degrees
+                    lo = draw(st.one_of(st.floats(-60.0, 20.0), st.sampled_from([0.0, 0, -40.0])))
+                    hi = draw(st.one_of(st.floats(30.0, 200.0), st.sampled_from([0.0, 85.0])))
+                    if hi < lo:
+                        lo, hi = hi, lo
                 if draw(st.integers(0, 7)) == 5:
                     hi = float("inf")  # an unbounded upper limit
                 lim[k] = [lo, hi]
